@@ -77,12 +77,15 @@ def wellPaired : List PEv → Bool
   | [] => true
   | .pick id .notready :: .done id' c :: rest => id == id' && c == 0 && wellPaired rest
   | .pick _ .notready :: _ => false
+  | .pick id .notreadyCancel :: .done id' c :: rest => id == id' && c == 0 && wellPaired rest
+  | .pick _ .notreadyCancel :: _ => false
   | .pick _ _ :: rest => wellPaired rest
   | .done _ _ :: _ => false
 
-/-- The pick loop calls Done exactly once, immediately, on every non-ready result it discards, and
-    on nothing else: not on ErrNoSubConnAvailable, not on a status error, and not on the result it
-    returns (that one is left to `csAttempt.finish`). -/
+/-- The pick loop calls Done exactly once, immediately, on every non-ready result it discards —
+    also when the RPC's context ended during that very `Pick` (`notreadyCancel`) — and on nothing
+    else: not on ErrNoSubConnAvailable, not on a status error, and not on the result it returns
+    (that one is left to `csAttempt.finish`). -/
 theorem pick_loop_done (script : List PickBeh) (n : Nat) : wellPaired (pickLoop script n).1 = true := by
   induction script generalizing n with
   | nil => simp [pickLoop, wellPaired]
@@ -100,6 +103,17 @@ theorem pick_loop_done (script : List PickBeh) (n : Nat) : wellPaired (pickLoop 
       simp [wellPaired, this]
     | hang => simp [pickLoop, wellPaired]
     | drop c => simp [pickLoop, wellPaired]
+    | notreadyCancel => simp [pickLoop, wellPaired]
+    | noscCancel => simp [pickLoop, wellPaired]
+
+/-- A pick during which the context ended returns CANCELLED without a pick result, and a discarded
+    not-ready result got its Done first. -/
+theorem cancelled_pick_done (rest : List PickBeh) (n : Nat) :
+    (pickLoop (.notreadyCancel :: rest) n).1 = [.pick (n + 1) .notreadyCancel, .done (n + 1) 0] ∧
+    (pickLoop (.notreadyCancel :: rest) n).2.2.2 = .cancelled ∧
+    (pickLoop (.noscCancel :: rest) n).1 = [.pick (n + 1) .noscCancel] ∧
+    (pickLoop (.noscCancel :: rest) n).2.2.2 = .cancelled := by
+  simp [pickLoop]
 
 def evId : PEv → Nat
   | .pick id _ => id
@@ -119,6 +133,8 @@ theorem pick_loop_fresh_ids (script : List PickBeh) (n : Nat) :
     | oknd => simp [pickLoop, evId]
     | hang => simp [pickLoop, evId]
     | drop c => simp [pickLoop, evId]
+    | notreadyCancel => simp [pickLoop, evId]
+    | noscCancel => simp [pickLoop, evId]
     | notready =>
       obtain ⟨h1, h2, h3⟩ := ih (n + 1)
       simp only [pickLoop]
